@@ -120,39 +120,40 @@ theorem C08_code_update_width (expf : Rat → Rat) (D : Nat → Row) (c s : Clu)
 /-- code: `_BFNode.append_subcluster` keeps the per-node centroid cache aligned with the entry list — if the valid part of
 `_packed_centroids_buf` lists the centroids of `_subclusters` (`cent` maps a sub-cluster to its centroid), it does so
 after the call, with the new entry last -/
-theorem C08_code_append_aligned (expf : Rat → Rat) (cent : Nat → Nat) (subs buf : List Nat) (h : Nat)
+theorem C08_code_append_aligned (expf : Rat → Rat) (cent : Nat → Nat) (subs buf : List Nat) (log : PV) (h : Nat)
     (hlen : subs.length < buf.length) (hal : buf.take subs.length = subs.map cent) :
-    let st := BBGen._BFNode_append_subcluster expf (PV.arr .big subs) (PV.arr .big buf) (PV.int h) (PV.int (cent h))
+    let st := BBGen._BFNode_append_subcluster expf (PV.arr .big subs) (PV.arr .big buf) log (PV.int h) (PV.int (cent h))
     st.getD 0 PV.pynone = PV.arr .big (subs ++ [h]) ∧
-    BBGen._BFNode_packed_centroids expf (st.getD 0 PV.pynone) (st.getD 1 PV.pynone) = PV.arr .big ((subs ++ [h]).map cent) := by
+    BBGen._BFNode_packed_centroids expf (st.getD 0 PV.pynone) (st.getD 1 PV.pynone) (st.getD 2 PV.pynone)
+      = PV.arr .big ((subs ++ [h]).map cent) := by
   intro st
-  refine ⟨?_, gen_node_append_aligned expf cent subs buf h hlen hal⟩
-  show (BBGen._BFNode_append_subcluster expf _ _ _ _).getD 0 PV.pynone = _
-  rw [gen_node_append expf subs buf h (cent h) hlen]; rfl
+  refine ⟨?_, gen_node_append_aligned expf cent subs buf log h hlen hal⟩
+  show (BBGen._BFNode_append_subcluster expf _ _ _ _ _).getD 0 PV.pynone = _
+  rw [gen_node_append expf subs buf log h (cent h) hlen]; rfl
 
 /-- code: `_BFNode.update_split_subclusters` — the entry that was split (at its position `i`) is replaced in place by the
 first half and the second half is appended, entries and cache by the same list expressions as the model's insertion
 (`ents.set i _ ++ [_]`, `cache.set i _ ++ [_]`), so the node gains exactly one entry, the other entries keep their
 order, and the cache lists the centroids of the entries again -/
-theorem C08_code_split_aligned (expf : Rat → Rat) (cent : Nat → Nat) (subs buf : List Nat) (h h1 h2 i : Nat)
+theorem C08_code_split_aligned (expf : Rat → Rat) (cent : Nat → Nat) (subs buf : List Nat) (log : PV) (h h1 h2 i : Nat)
     (hlen : subs.length < buf.length) (hi : subs.idxOf? h = some i) (hal : buf.take subs.length = subs.map cent) :
-    let st := BBGen._BFNode_update_split_subclusters expf (PV.arr .big subs) (PV.arr .big buf) (PV.int h) (PV.int h1) (PV.int h2)
+    let st := BBGen._BFNode_update_split_subclusters expf (PV.arr .big subs) (PV.arr .big buf) log (PV.int h) (PV.int h1) (PV.int h2)
                 (PV.int (cent h1)) (PV.int (cent h2))
     st.getD 0 PV.pynone = PV.arr .big (subs.set i h1 ++ [h2]) ∧
-    BBGen._BFNode_packed_centroids expf (st.getD 0 PV.pynone) (st.getD 1 PV.pynone)
+    BBGen._BFNode_packed_centroids expf (st.getD 0 PV.pynone) (st.getD 1 PV.pynone) (st.getD 2 PV.pynone)
       = PV.arr .big ((subs.map cent).set i (cent h1) ++ [cent h2]) ∧
     (subs.map cent).set i (cent h1) ++ [cent h2] = (subs.set i h1 ++ [h2]).map cent ∧
     (subs.set i h1 ++ [h2]).length = subs.length + 1 :=
-  let ⟨a, b, c⟩ := gen_node_split_aligned expf cent subs buf h h1 h2 i hlen hi hal
+  let ⟨a, b, c⟩ := gen_node_split_aligned expf cent subs buf log h h1 h2 i hlen hi hal
   ⟨a, b, c, by simp⟩
 
 /-- premises satisfiable: a node with entries 7, 8, 9 (centroid of `k` = `10 k`) in a buffer of five rows; entry 8 is split
 into 20 and 21 -/
 example : ([7, 8, 9] : List Nat).length < [70, 80, 90, 0, 0].length ∧ ([7, 8, 9] : List Nat).idxOf? 8 = some 1 ∧
     ([70, 80, 90, 0, 0] : List Nat).take 3 = [7, 8, 9].map (· * 10) ∧
-    BBGen._BFNode_update_split_subclusters (fun x => x) (PV.arr .big [7, 8, 9]) (PV.arr .big [70, 80, 90, 0, 0]) (PV.int 8)
-      (PV.int 20) (PV.int 21) (PV.int 200) (PV.int 210)
-      = [PV.arr .big [7, 20, 9, 21], PV.arr .big [70, 200, 90, 210, 0]] := by
+    BBGen._BFNode_update_split_subclusters (fun x => x) (PV.arr .big [7, 8, 9]) (PV.arr .big [70, 80, 90, 0, 0]) (PV.arr .big [])
+      (PV.int 8) (PV.int 20) (PV.int 21) (PV.int 200) (PV.int 210)
+      = [PV.arr .big [7, 20, 9, 21], PV.arr .big [70, 200, 90, 210, 0], PV.arr .big []] := by
   decide +kernel
 
 end BB
